@@ -45,7 +45,7 @@ func (f FileSpec) descriptors(caseDir string) (*pluginpb.CodeGeneratorRequest, s
 		MessageType: []*descriptorpb.DescriptorProto{{Name: sp("In"), Field: bytesField()}, {Name: sp("Out"), Field: bytesField()}},
 	}
 	typeName := func(i int) string {
-		switch i {
+		switch f.kind(i) {
 		case 2:
 			return ".verif.other.Page"
 		case 3:
@@ -82,6 +82,7 @@ type toolchain struct {
 	dir     string // scratch module
 	protoc  string
 	drpc    string
+	gogo    string // protoc-gen-gogo: message code for the gogo protolib
 	err     error
 	counter int
 }
@@ -117,6 +118,7 @@ func setup() *toolchain {
 		}
 		tc.dir = dir
 		tc.protoc, tc.drpc = filepath.Join(dir, "bin", "protoc-gen-go"), filepath.Join(dir, "bin", "protoc-gen-go-drpc")
+		tc.gogo = filepath.Join(dir, "bin", "protoc-gen-gogo")
 		// VERIF_REPO / VERIF_MODFILE: development-only override (bin/mutant-wt) that points the harness at a scratch
 		// worktree of storj/drpc instead of /repo; the registered commands never set them.
 		repo, modfile := os.Getenv("VERIF_REPO"), []string{}
@@ -130,11 +132,15 @@ func setup() *toolchain {
 			tc.err = fmt.Errorf("build protoc-gen-go: %v\n%s", err, out)
 			return
 		}
+		if out, err := run(harnessDir(), "go", append(append([]string{"build"}, modfile...), "-o", tc.gogo, "github.com/gogo/protobuf/protoc-gen-gogo")...); err != nil {
+			tc.err = fmt.Errorf("build protoc-gen-gogo: %v\n%s", err, out)
+			return
+		}
 		if out, err := run(harnessDir(), "go", append(append([]string{"build"}, modfile...), "-o", tc.drpc, "storj.io/drpc/cmd/protoc-gen-go-drpc")...); err != nil {
 			tc.err = fmt.Errorf("build protoc-gen-go-drpc: %v\n%s", err, out)
 			return
 		}
-		gomod := "module verifgen\n\ngo 1.19\n\nrequire (\n\tgithub.com/zeebo/errs v1.2.2\n\tgoogle.golang.org/protobuf v1.27.1\n\tstorj.io/drpc v0.0.0\n)\n\nreplace storj.io/drpc => " + repo + "\n"
+		gomod := "module verifgen\n\ngo 1.19\n\nrequire (\n\tgithub.com/gogo/protobuf v1.3.2\n\tgithub.com/zeebo/errs v1.2.2\n\tgoogle.golang.org/protobuf v1.27.1\n\tstorj.io/drpc v0.0.0\n)\n\nreplace storj.io/drpc => " + repo + "\n"
 		_ = os.WriteFile(filepath.Join(dir, "go.mod"), []byte(gomod), 0o644)
 		sum, _ := os.ReadFile(filepath.Join(repo, "go.sum"))
 		_ = os.WriteFile(filepath.Join(dir, "go.sum"), sum, 0o644)
@@ -184,14 +190,36 @@ func generate(t *toolchain, f FileSpec) (out genOutcome) {
 	if f.Protolib == "custom" {
 		param = "protolib=verifgen/customenc"
 	}
+	if f.Protolib == "gogo" {
+		param = "protolib=github.com/gogo/protobuf"
+	}
 	if !f.JSON {
 		if param != "" {
 			param += ","
 		}
 		param += "json=false"
 	}
-	for _, plug := range []string{t.protoc, t.drpc} {
+	msgPlugin := t.protoc
+	if f.Protolib == "gogo" {
+		msgPlugin = t.gogo
+	}
+	type plugRun struct {
+		plug  string
+		files []string
+	}
+	runs := []plugRun{{msgPlugin, req.FileToGenerate}, {t.drpc, req.FileToGenerate}}
+	if f.Protolib == "gogo" {
+		// protoc-gen-gogo generates one Go package per invocation
+		runs = nil
+		for _, name := range req.FileToGenerate {
+			runs = append(runs, plugRun{msgPlugin, []string{name}})
+		}
+		runs = append(runs, plugRun{t.drpc, req.FileToGenerate})
+	}
+	for _, pr := range runs {
+		plug := pr.plug
 		r := proto.Clone(req).(*pluginpb.CodeGeneratorRequest)
+		r.FileToGenerate = pr.files
 		if plug == t.drpc && param != "" {
 			r.Parameter = sp(param)
 		}
